@@ -1,3 +1,1935 @@
-//! C15 over real sockets (lightning-net-tokio): placeholder until the stage is built.
-use lightning_net_tokio as _;
-fn main() {}
+//! C15 over real sockets: `lightning-net-tokio` between real `PeerManager`s, with real threads.
+//!
+//! Per case: a tokio multi-thread runtime (2..4 workers), two or three `PeerManager`s with their own
+//! `KeysManager`s and a recording custom-message handler, connected over loopback TCP through
+//! `lightning_net_tokio::setup_outbound` / `setup_inbound`. Between the two sockets of a connection
+//! sits a harness proxy (two pumps per direction: a reader filling an unbounded queue and a writer
+//! draining it) which, seeded, cuts the stream into chunks, coalesces, delays, stalls a direction
+//! until the sender provably has a backlog (so `send_data` returns short writes, the library pauses
+//! reads and has to resume them) and, in fault cases, damages the stream once at a chosen absolute
+//! offset (flip one byte / truncate+close / duplicate the last n bytes / drop n bytes).
+//!
+//! Rules (ids used in violations):
+//!  N1  undisturbed connection: what each side's handler received from the other equals, message by
+//!      message (type, length, content hash), what the other released while it was told the peer is
+//!      connected: nothing missing, duplicated, reordered or altered; the library does not drop an
+//!      undisturbed connection and a fault-free handshake completes
+//!  N2  damaged connection: the delivered messages are a prefix of the released ones, each intact; no
+//!      message whose frame overlaps or follows the damaged offset is delivered (frame positions are
+//!      bounded from below by the handshake length plus the frames of the earlier messages); N2b: the
+//!      receiver does not keep reading: the proxy cannot push more than (largest frame + two reads +
+//!      everything the kernel can hold) bytes past the damage into the receiver's socket
+//!  N3  no panic in any thread; no message is handed to the handler unless `peer_connected` was
+//!      called for that peer (and not yet `peer_disconnected`)
+//!  N4  after a connection went down (fault, harness close, `disconnect_by_node_id`,
+//!      `disconnect_all_peers`), the same nodes reconnect and N1 holds for the new connection; a
+//!      second connection attempt between connected nodes does not disturb the first (N1 on it)
+//!  N5  once the future returned by `setup_*` has completed, the `PeerManager` no longer lists that
+//!      peer and the handler has been told `peer_disconnected` (disconnects are propagated)
+//!  N6  no stall: messages are missing in one direction, nothing moved in that direction for
+//!      `stall_ms` (default 20 s) although the harness imposes no stall, and meanwhile `probes` (20)
+//!      sequential messages in the opposite direction were delivered (so the runtime is alive and the
+//!      receiver has no backlog that would justify paused reads). Residual assumption, stated in the
+//!      report: a runnable tokio task is scheduled within that window.
+//!  P1  timer ticks at quiescent points, each followed by a full round trip, never drop the link
+//! Wall-clock watchdogs only ever yield INCONCLUSIVE (`watchdog_fired`).
+
+use bitcoin::secp256k1::PublicKey;
+use lightning::ln::msgs::{DecodeError, Init, LightningError};
+use lightning::ln::peer_handler::{CustomMessageHandler, ErroringMessageHandler, IgnoringMessageHandler, MessageHandler, PeerManager};
+use lightning::ln::wire::{CustomMessageReader, Type};
+use lightning::sign::{KeysManager, NodeSigner, Recipient};
+use lightning::types::features::{InitFeatures, NodeFeatures};
+use lightning::util::logger::{Logger, Record};
+use lightning::util::ser::{LengthLimitedRead, Writeable, Writer};
+use lightning_net_tokio::SocketDescriptor;
+use std::collections::{BTreeMap, VecDeque};
+use std::sync::atomic::{AtomicBool, AtomicU64, Ordering};
+use std::sync::{Arc, Mutex};
+use std::time::{Duration, Instant};
+use tokio::io::{AsyncReadExt, AsyncWriteExt};
+use tokio::net::tcp::{OwnedReadHalf, OwnedWriteHalf};
+use tokio::net::{TcpSocket, TcpStream};
+use tokio::sync::{mpsc, Notify};
+use tokio::task::JoinHandle;
+use vcore::{Args, Fnv, Json, Report, Rng};
+
+const SO: Ordering = Ordering::SeqCst;
+/// Bytes of handshake acts in the stream of the initiator / the responder.
+const HS_INIT: u64 = 50 + 66;
+const HS_RESP: u64 = 50;
+/// Encrypted length header (2+16), message type (2), body MAC (16).
+const FRAME_OVH: u64 = 18 + 2 + 16;
+const MAX_BODY: usize = 65533;
+/// Slack for "one more skb" on either side of a loopback connection.
+const SKB_SLACK: u64 = 2 * 65536;
+
+// ---------------------------------------------------------------------------------------------
+// Panics: recorded globally (they may happen on any runtime thread)
+// ---------------------------------------------------------------------------------------------
+static PANICS: Mutex<Vec<String>> = Mutex::new(Vec::new());
+fn install_hook() {
+	std::panic::set_hook(Box::new(|info| {
+		let msg = if let Some(s) = info.payload().downcast_ref::<&str>() {
+			s.to_string()
+		} else if let Some(s) = info.payload().downcast_ref::<String>() {
+			s.clone()
+		} else {
+			"<non-string panic>".to_string()
+		};
+		let loc = info.location().map(|l| format!("{}:{}", l.file(), l.line())).unwrap_or_default();
+		if std::env::var("VERIF_PANIC_TRACE").is_ok() {
+			eprintln!("panic: {} @ {}\n{}", msg, loc, std::backtrace::Backtrace::force_capture());
+		}
+		PANICS.lock().unwrap_or_else(|e| e.into_inner()).push(format!("{} @ {}", msg, loc));
+	}));
+}
+fn panics_seen() -> usize {
+	PANICS.lock().unwrap_or_else(|e| e.into_inner()).len()
+}
+fn take_panics() -> Vec<String> {
+	std::mem::take(&mut *PANICS.lock().unwrap_or_else(|e| e.into_inner()))
+}
+fn lock<T>(m: &Mutex<T>) -> std::sync::MutexGuard<'_, T> {
+	m.lock().unwrap_or_else(|e| e.into_inner())
+}
+
+struct QuietLogger {
+	on: bool,
+	tag: usize,
+}
+impl Logger for QuietLogger {
+	fn log(&self, r: Record) {
+		if self.on {
+			eprintln!("    LDK[n{} {}] {}:{} {}", self.tag, r.level, r.module_path, r.line, r.args);
+		}
+	}
+}
+
+// ---------------------------------------------------------------------------------------------
+// Messages and the recording handler
+// ---------------------------------------------------------------------------------------------
+/// All odd and >= 32769. The type cycles with the sequence number so that neighbours differ even
+/// when the body is empty.
+const TYPES: [u16; 7] = [32769, 32771, 43211, 65535, 50001, 40001, 33333];
+
+#[derive(Clone, PartialEq)]
+struct CMsg {
+	ty: u16,
+	body: Vec<u8>,
+}
+impl std::fmt::Debug for CMsg {
+	fn fmt(&self, f: &mut std::fmt::Formatter) -> std::fmt::Result {
+		write!(f, "CMsg(type {}, {} bytes)", self.ty, self.body.len())
+	}
+}
+impl Writeable for CMsg {
+	fn write<W: Writer>(&self, w: &mut W) -> Result<(), lightning::io::Error> {
+		w.write_all(&self.body)
+	}
+}
+impl Type for CMsg {
+	fn type_id(&self) -> u16 {
+		self.ty
+	}
+}
+
+/// Body: pseudo-random pattern of (from, to, gen, seq, len); bodies of >= 28 bytes start with a
+/// header `from to gen:u16 seq:u32 len:u32 fnv64(rest)` (diagnostics only, the ledger decides).
+fn make_msg(from: usize, to: usize, gen: u32, seq: u32, len: usize) -> CMsg {
+	let mut r = Rng::derive(0xC15_0000 + from as u64 * 16 + to as u64, ((gen as u64) << 32) | seq as u64, len as u64);
+	let mut body = r.vec(len);
+	if len >= 28 {
+		body[0] = from as u8;
+		body[1] = to as u8;
+		body[2..4].copy_from_slice(&(gen as u16).to_be_bytes());
+		body[4..8].copy_from_slice(&seq.to_be_bytes());
+		body[8..12].copy_from_slice(&(len as u32).to_be_bytes());
+		let h = Fnv::new().bytes(&body[20..]).get();
+		body[12..20].copy_from_slice(&h.to_be_bytes());
+	}
+	CMsg { ty: TYPES[seq as usize % TYPES.len()], body }
+}
+fn describe_body(b: &[u8]) -> String {
+	if b.len() >= 28 {
+		let h = Fnv::new().bytes(&b[20..]).get();
+		let ok = h.to_be_bytes() == b[12..20];
+		format!(
+			"header from={} to={} gen={} seq={} len={} checksum_{}",
+			b[0],
+			b[1],
+			u16::from_be_bytes([b[2], b[3]]),
+			u32::from_be_bytes([b[4], b[5], b[6], b[7]]),
+			u32::from_be_bytes([b[8], b[9], b[10], b[11]]),
+			if ok { "ok" } else { "BAD" }
+		)
+	} else {
+		format!("short body {}", vcore::hex(b))
+	}
+}
+
+#[derive(Clone, PartialEq, Eq, Debug)]
+struct Sig {
+	ty: u16,
+	len: u32,
+	hash: u64,
+	/// what the header says (received side) / sequence number (sent side); diagnostics only
+	note: String,
+}
+impl Sig {
+	fn same(&self, o: &Sig) -> bool {
+		self.ty == o.ty && self.len == o.len && self.hash == o.hash
+	}
+}
+
+#[derive(Default)]
+struct DirStat {
+	released_msgs: AtomicU64,
+	released_bytes: AtomicU64,
+}
+
+struct NodeState {
+	outq: VecDeque<(usize, CMsg, u32)>,
+	release_cap: usize,
+	connected: Vec<bool>,
+	gen: Vec<u32>,
+	next_seq: Vec<u32>,
+	conn_calls: Vec<u32>,
+	disc_calls: Vec<u32>,
+	queued: BTreeMap<(usize, u32), usize>,
+	sent: BTreeMap<(usize, u32), Vec<Sig>>,
+	recv: BTreeMap<(usize, u32), Vec<Sig>>,
+	early: Vec<String>,
+	unknown_peer_calls: u64,
+}
+
+struct NodeShared {
+	me: usize,
+	pks: Vec<PublicKey>,
+	st: Mutex<NodeState>,
+	out_stat: Vec<Arc<DirStat>>,
+	stop: AtomicBool,
+}
+impl NodeShared {
+	fn idx(&self, pk: &PublicKey) -> Option<usize> {
+		self.pks.iter().position(|p| p == pk)
+	}
+	/// Queue messages of the given body lengths for `to` (current generation).
+	fn queue(&self, to: usize, lens: &[usize]) {
+		let mut st = lock(&self.st);
+		let gen = st.gen[to];
+		for &len in lens {
+			let seq = st.next_seq[to];
+			st.next_seq[to] += 1;
+			st.outq.push_back((to, make_msg(self.me, to, gen, seq, len), seq));
+		}
+		*st.queued.entry((to, gen)).or_insert(0) += lens.len();
+	}
+	fn has_releasable(&self) -> bool {
+		let st = lock(&self.st);
+		st.outq.iter().any(|(to, _, _)| st.connected[*to])
+	}
+}
+
+struct CustomH(Arc<NodeShared>);
+impl CustomMessageReader for CustomH {
+	type CustomMessage = CMsg;
+	fn read<R: LengthLimitedRead>(&self, message_type: u16, buffer: &mut R) -> Result<Option<CMsg>, DecodeError> {
+		if message_type < 32768 {
+			return Ok(None);
+		}
+		let mut body = vec![0u8; buffer.remaining_bytes() as usize];
+		buffer.read_exact(&mut body).map_err(|_| DecodeError::ShortRead)?;
+		Ok(Some(CMsg { ty: message_type, body }))
+	}
+}
+impl CustomMessageHandler for CustomH {
+	fn handle_custom_message(&self, msg: CMsg, sender_node_id: PublicKey) -> Result<(), LightningError> {
+		let sh = &self.0;
+		let mut st = lock(&sh.st);
+		match sh.idx(&sender_node_id) {
+			Some(from) => {
+				if !st.connected[from] {
+					let calls = (st.conn_calls[from], st.disc_calls[from]);
+					st.early.push(format!("node {} was handed a message of type {} ({} bytes) from node {} while that peer is not connected for the handler (peer_connected calls {}, peer_disconnected calls {})", sh.me, msg.ty, msg.body.len(), from, calls.0, calls.1));
+				}
+				let gen = st.gen[from];
+				let sig = Sig { ty: msg.ty, len: msg.body.len() as u32, hash: Fnv::new().bytes(&msg.body).get(), note: describe_body(&msg.body[..msg.body.len().min(28)]) };
+				st.recv.entry((from, gen)).or_default().push(sig);
+			},
+			None => st.unknown_peer_calls += 1,
+		}
+		Ok(())
+	}
+	fn get_and_clear_pending_msg(&self) -> Vec<(PublicKey, CMsg)> {
+		let sh = &self.0;
+		let mut st = lock(&sh.st);
+		let mut out = Vec::new();
+		if st.outq.is_empty() {
+			return out;
+		}
+		let cap = st.release_cap;
+		let mut keep = VecDeque::new();
+		let q = std::mem::take(&mut st.outq);
+		for (to, m, seq) in q {
+			if out.len() < cap && st.connected[to] {
+				let gen = st.gen[to];
+				let sig = Sig { ty: m.ty, len: m.body.len() as u32, hash: Fnv::new().bytes(&m.body).get(), note: format!("seq {}", seq) };
+				st.sent.entry((to, gen)).or_default().push(sig);
+				sh.out_stat[to].released_msgs.fetch_add(1, SO);
+				sh.out_stat[to].released_bytes.fetch_add(FRAME_OVH + m.body.len() as u64, SO);
+				out.push((sh.pks[to], m));
+			} else {
+				keep.push_back((to, m, seq));
+			}
+		}
+		st.outq = keep;
+		out
+	}
+	fn peer_disconnected(&self, their_node_id: PublicKey) {
+		let sh = &self.0;
+		let mut st = lock(&sh.st);
+		match sh.idx(&their_node_id) {
+			Some(i) => {
+				st.connected[i] = false;
+				st.disc_calls[i] += 1;
+			},
+			None => st.unknown_peer_calls += 1,
+		}
+	}
+	fn peer_connected(&self, their_node_id: PublicKey, _msg: &Init, _inbound: bool) -> Result<(), ()> {
+		let sh = &self.0;
+		let mut st = lock(&sh.st);
+		match sh.idx(&their_node_id) {
+			Some(i) => {
+				st.connected[i] = true;
+				st.conn_calls[i] += 1;
+			},
+			None => st.unknown_peer_calls += 1,
+		}
+		Ok(())
+	}
+	fn provided_node_features(&self) -> NodeFeatures {
+		NodeFeatures::empty()
+	}
+	fn provided_init_features(&self, _their_node_id: PublicKey) -> InitFeatures {
+		InitFeatures::empty()
+	}
+}
+
+type PM = PeerManager<SocketDescriptor, ErroringMessageHandler, IgnoringMessageHandler, IgnoringMessageHandler, Arc<QuietLogger>, Arc<CustomH>, Arc<KeysManager>, IgnoringMessageHandler>;
+
+struct Node {
+	sh: Arc<NodeShared>,
+	pm: Arc<PM>,
+	pk: PublicKey,
+}
+
+fn make_nodes(n: usize, rng: &mut Rng) -> Vec<Node> {
+	let log_on = std::env::var("VERIF_LDK_LOG").is_ok();
+	let keys: Vec<Arc<KeysManager>> = (0..n)
+		.map(|_| {
+			let seed: [u8; 32] = rng.bytes();
+			Arc::new(KeysManager::new(&seed, 42, 42, true))
+		})
+		.collect();
+	let pks: Vec<PublicKey> = keys.iter().map(|k| k.get_node_id(Recipient::Node).unwrap()).collect();
+	let mut nodes = Vec::new();
+	for me in 0..n {
+		let sh = Arc::new(NodeShared {
+			me,
+			pks: pks.clone(),
+			st: Mutex::new(NodeState {
+				outq: VecDeque::new(),
+				release_cap: usize::MAX,
+				connected: vec![false; n],
+				gen: vec![0; n],
+				next_seq: vec![0; n],
+				conn_calls: vec![0; n],
+				disc_calls: vec![0; n],
+				queued: BTreeMap::new(),
+				sent: BTreeMap::new(),
+				recv: BTreeMap::new(),
+				early: Vec::new(),
+				unknown_peer_calls: 0,
+			}),
+			out_stat: (0..n).map(|_| Arc::new(DirStat::default())).collect(),
+			stop: AtomicBool::new(false),
+		});
+		let mh = MessageHandler {
+			chan_handler: ErroringMessageHandler::new(),
+			route_handler: IgnoringMessageHandler {},
+			onion_message_handler: IgnoringMessageHandler {},
+			custom_message_handler: Arc::new(CustomH(sh.clone())),
+			send_only_message_handler: IgnoringMessageHandler {},
+		};
+		let eph: [u8; 32] = rng.bytes();
+		let pm = Arc::new(PeerManager::new(mh, 1_700_000_000 + rng.below(1 << 20) as u32, &eph, Arc::new(QuietLogger { on: log_on, tag: me }), keys[me].clone()));
+		nodes.push(Node { sh, pm, pk: pks[me] });
+	}
+	nodes
+}
+
+// ---------------------------------------------------------------------------------------------
+// The proxy
+// ---------------------------------------------------------------------------------------------
+#[derive(Default)]
+struct ByteQueue {
+	blocks: VecDeque<Vec<u8>>,
+	head: usize,
+	len: usize,
+	eof: bool,
+}
+impl ByteQueue {
+	fn push(&mut self, v: Vec<u8>) {
+		if !v.is_empty() {
+			self.len += v.len();
+			self.blocks.push_back(v);
+		}
+	}
+	fn take(&mut self, k: usize) -> Vec<u8> {
+		let k = k.min(self.len);
+		let mut out = Vec::with_capacity(k);
+		while out.len() < k {
+			let need = k - out.len();
+			let front = self.blocks.front().unwrap();
+			let avail = front.len() - self.head;
+			if avail <= need {
+				out.extend_from_slice(&front[self.head..]);
+				self.blocks.pop_front();
+				self.head = 0;
+			} else {
+				out.extend_from_slice(&front[self.head..self.head + need]);
+				self.head += need;
+			}
+		}
+		self.len -= k;
+		out
+	}
+}
+
+#[derive(Clone, Debug, PartialEq)]
+enum FaultKind {
+	Flip(u8),
+	Trunc,
+	Dup(usize),
+	Drop(usize),
+}
+impl FaultKind {
+	fn name(&self) -> &'static str {
+		match self {
+			FaultKind::Flip(_) => "flip",
+			FaultKind::Trunc => "truncate",
+			FaultKind::Dup(_) => "duplicate",
+			FaultKind::Drop(_) => "drop",
+		}
+	}
+}
+#[derive(Clone, Debug)]
+struct FaultSpec {
+	dir: usize,
+	off: u64,
+	kind: FaultKind,
+}
+
+#[derive(Clone, Debug)]
+struct Stall {
+	at: u64,
+	backlog_bytes: u64,
+	cap_ms: u64,
+	hold_ms: u64,
+}
+
+#[derive(Clone, Debug)]
+struct DirCfg {
+	read_max: usize,
+	/// 0 tiny .. 4 huge, 5 mixed
+	chunk_style: u8,
+	sleep_per_mille: u64,
+	coalesce_per_mille: u64,
+	stalls: Vec<Stall>,
+	fault: Option<(u64, FaultKind)>,
+	seed: u64,
+}
+
+#[derive(Default)]
+struct DirCtl {
+	read_bytes: AtomicU64,
+	written_bytes: AtomicU64,
+	out_bytes: AtomicU64,
+	chunks: AtomicU64,
+	stalls_started: AtomicU64,
+	stalls_capped: AtomicU64,
+	stalls_backpressure: AtomicU64,
+	stall_active: AtomicBool,
+	fault_applied: AtomicBool,
+	fault_out_pos: AtomicU64,
+	queue: Mutex<ByteQueue>,
+	notify: Notify,
+}
+
+enum LinkEv {
+	Done(String),
+	Kill,
+}
+
+struct LinkCtl {
+	dirs: [Arc<DirCtl>; 2],
+	closed: AtomicBool,
+	first_close: Mutex<Option<String>>,
+	ev: mpsc::UnboundedSender<LinkEv>,
+}
+impl LinkCtl {
+	fn note_close(&self, why: String) {
+		let mut g = lock(&self.first_close);
+		if g.is_none() {
+			*g = Some(why);
+		}
+	}
+	fn first_close(&self) -> Option<String> {
+		lock(&self.first_close).clone()
+	}
+	fn going_down(&self) -> bool {
+		self.closed.load(SO) || lock(&self.first_close).is_some()
+	}
+}
+
+struct ReaderCtx {
+	ctl: Arc<LinkCtl>,
+	d: usize,
+	cfg: DirCfg,
+	/// sender of this direction, the node it sends to, the generation and the handshake length
+	sender: Arc<NodeShared>,
+	to: usize,
+	gen: u32,
+	hs: u64,
+	/// kernel buffering between the sender and the proxy (None: unknown / autotuned)
+	kbuf_up: Option<u64>,
+	src_side: usize,
+}
+
+async fn pump_reader(mut rd: OwnedReadHalf, cx: ReaderCtx) {
+	let ctl = cx.ctl.dirs[cx.d].clone();
+	let mut rng = Rng::new(cx.cfg.seed ^ 0x5ead);
+	let mut buf = vec![0u8; 65536];
+	let mut in_off: u64 = 0;
+	let mut out_off: u64 = 0;
+	let mut tail: VecDeque<u8> = VecDeque::new();
+	let mut stall_i = 0;
+	let mut fault = cx.cfg.fault.clone();
+	let stat = cx.sender.out_stat[cx.to].clone();
+	let base_released = stat.released_bytes.load(SO);
+	'outer: loop {
+		while stall_i < cx.cfg.stalls.len() && in_off >= cx.cfg.stalls[stall_i].at {
+			let st = cx.cfg.stalls[stall_i].clone();
+			stall_i += 1;
+			if ctl.fault_applied.load(SO) || cx.ctl.going_down() {
+				continue;
+			}
+			ctl.stall_active.store(true, SO);
+			ctl.stalls_started.fetch_add(1, SO);
+			let t0 = Instant::now();
+			loop {
+				let released = stat.released_bytes.load(SO) - base_released;
+				let unread = (released + cx.hs).saturating_sub(in_off);
+				if unread >= st.backlog_bytes + cx.kbuf_up.unwrap_or(256 * 1024) {
+					break;
+				}
+				if t0.elapsed() >= Duration::from_millis(st.cap_ms) {
+					ctl.stalls_capped.fetch_add(1, SO);
+					break;
+				}
+				tokio::time::sleep(Duration::from_millis(1)).await;
+			}
+			// evidence: how many released messages certainly have not reached the kernel yet
+			if let Some(kb) = cx.kbuf_up {
+				let stn = lock(&cx.sender.st);
+				if let Some(sent) = stn.sent.get(&(cx.to, cx.gen)) {
+					let mut lo = cx.hs;
+					let mut stuck = 0;
+					for s in sent {
+						if lo >= in_off + kb + SKB_SLACK {
+							stuck += 1;
+						}
+						lo += FRAME_OVH + s.len as u64;
+					}
+					if stuck >= 12 {
+						ctl.stalls_backpressure.fetch_add(1, SO);
+					}
+				}
+			}
+			if st.hold_ms > 0 {
+				tokio::time::sleep(Duration::from_millis(st.hold_ms)).await;
+			}
+			ctl.stall_active.store(false, SO);
+		}
+		let want = rng.range(1, cx.cfg.read_max as u64) as usize;
+		let n = match rd.read(&mut buf[..want]).await {
+			Ok(0) => {
+				cx.ctl.note_close(format!("side {} closed its socket (EOF)", cx.src_side));
+				break;
+			},
+			Ok(n) => n,
+			Err(e) => {
+				cx.ctl.note_close(format!("side {} closed its socket ({:?})", cx.src_side, e.kind()));
+				break;
+			},
+		};
+		let mut data = buf[..n].to_vec();
+		let blk_start = in_off;
+		let blk_end = in_off + n as u64;
+		in_off = blk_end;
+		ctl.read_bytes.store(in_off, SO);
+		let mut eof_after = false;
+		let mut applied_now = None;
+		if let Some((off, kind)) = fault.clone() {
+			match kind {
+				FaultKind::Flip(mask) => {
+					if off >= blk_start && off < blk_end {
+						data[(off - blk_start) as usize] ^= mask;
+						applied_now = Some(out_off + (off - blk_start));
+						fault = None;
+					}
+				},
+				FaultKind::Trunc => {
+					if off < blk_end {
+						data.truncate((off.max(blk_start) - blk_start) as usize);
+						applied_now = Some(out_off + data.len() as u64);
+						fault = None;
+						eof_after = true;
+					}
+				},
+				FaultKind::Drop(m) => {
+					let (ds, de) = (off, off + m as u64);
+					if ds < blk_end && de > blk_start {
+						let s = (ds.max(blk_start) - blk_start) as usize;
+						let e = (de.min(blk_end) - blk_start) as usize;
+						if !ctl.fault_applied.load(SO) {
+							applied_now = Some(out_off + s as u64);
+						}
+						data.drain(s..e);
+					}
+					if de <= blk_end {
+						fault = None;
+					}
+				},
+				FaultKind::Dup(m) => {
+					if off > blk_start && off <= blk_end {
+						let cut = (off - blk_start) as usize;
+						let mut hist: Vec<u8> = tail.iter().cloned().collect();
+						hist.extend_from_slice(&data[..cut]);
+						let m = m.min(hist.len());
+						let dup = hist[hist.len() - m..].to_vec();
+						let rest = data.split_off(cut);
+						applied_now = Some(out_off + data.len() as u64);
+						data.extend_from_slice(&dup);
+						data.extend_from_slice(&rest);
+						fault = None;
+					}
+				},
+			}
+		}
+		if let Some(pos) = applied_now {
+			ctl.fault_out_pos.store(pos, SO);
+			ctl.fault_applied.store(true, SO);
+		}
+		for b in data.iter().rev().take(128).collect::<Vec<_>>().into_iter().rev() {
+			tail.push_back(*b);
+		}
+		while tail.len() > 128 {
+			tail.pop_front();
+		}
+		out_off += data.len() as u64;
+		ctl.out_bytes.store(out_off, SO);
+		lock(&ctl.queue).push(data);
+		ctl.notify.notify_one();
+		if eof_after {
+			cx.ctl.note_close("harness truncated the stream".to_string());
+			break 'outer;
+		}
+	}
+	lock(&ctl.queue).eof = true;
+	ctl.notify.notify_one();
+}
+
+fn chunk_size(rng: &mut Rng, style: u8) -> usize {
+	let style = if style == 5 { [0u8, 1, 2, 3, 3, 4, 4, 4][rng.below(8) as usize] } else { style };
+	(match style {
+		0 => rng.range(1, 16),
+		1 => rng.range(1, 200),
+		2 => rng.range(1, 1500),
+		3 => rng.range(1, 8192),
+		_ => rng.range(1, 65536),
+	}) as usize
+}
+
+async fn pump_writer(mut wr: OwnedWriteHalf, link: Arc<LinkCtl>, d: usize, cfg: DirCfg, dst_side: usize) {
+	let ctl = link.dirs[d].clone();
+	let mut rng = Rng::new(cfg.seed ^ 0x3717e);
+	let why = loop {
+		if rng.below(1000) < cfg.coalesce_per_mille {
+			tokio::time::sleep(Duration::from_micros(rng.range(200, 3000))).await;
+		}
+		let chunk = loop {
+			{
+				let mut q = lock(&ctl.queue);
+				if q.len > 0 {
+					let k = chunk_size(&mut rng, cfg.chunk_style);
+					break Some(q.take(k));
+				}
+				if q.eof {
+					break None;
+				}
+			}
+			ctl.notify.notified().await;
+		};
+		let chunk = match chunk {
+			Some(c) => c,
+			None => break format!("stream towards side {} ended", dst_side),
+		};
+		if let Err(e) = wr.write_all(&chunk).await {
+			link.note_close(format!("side {} closed its socket (write failed: {:?})", dst_side, e.kind()));
+			break format!("write to side {} failed", dst_side);
+		}
+		ctl.written_bytes.fetch_add(chunk.len() as u64, SO);
+		ctl.chunks.fetch_add(1, SO);
+		if rng.below(1000) < cfg.sleep_per_mille {
+			tokio::time::sleep(Duration::from_micros(rng.range(0, 3000))).await;
+		}
+	};
+	let _ = link.ev.send(LinkEv::Done(why));
+}
+
+async fn supervise(mut rx: mpsc::UnboundedReceiver<LinkEv>, handles: Vec<JoinHandle<()>>, ctl: Arc<LinkCtl>) {
+	match rx.recv().await {
+		Some(LinkEv::Kill) | None => ctl.note_close("harness closed the link".to_string()),
+		Some(LinkEv::Done(why)) => ctl.note_close(why),
+	}
+	for h in &handles {
+		h.abort();
+	}
+	for h in handles {
+		let _ = h.await;
+	}
+	ctl.closed.store(true, SO);
+}
+
+// ---------------------------------------------------------------------------------------------
+// Links
+// ---------------------------------------------------------------------------------------------
+#[derive(Clone, Debug)]
+struct LinkCfg {
+	/// requested SO_SNDBUF/SO_RCVBUF for: initiator socket, proxy listener (initiator side), proxy
+	/// socket towards the responder, responder's listener. None: kernel default (autotuned).
+	bufs: [Option<u32>; 4],
+	dirs: [DirCfg; 2],
+}
+
+struct Link {
+	a: usize,
+	b: usize,
+	gen: u32,
+	is_dup: bool,
+	ctl: Arc<LinkCtl>,
+	done: [Arc<AtomicBool>; 2],
+	fault: Option<FaultSpec>,
+	/// kernel buffering between the proxy and the receiver of direction d
+	kbuf_down: [Option<u64>; 2],
+	/// the harness disturbed this connection before its traffic was complete (reason)
+	disturbed: Option<String>,
+	n5_checked: bool,
+}
+impl Link {
+	fn fault_applied(&self) -> bool {
+		self.ctl.dirs[0].fault_applied.load(SO) || self.ctl.dirs[1].fault_applied.load(SO)
+	}
+	fn sender(&self, d: usize) -> usize {
+		if d == 0 {
+			self.a
+		} else {
+			self.b
+		}
+	}
+	fn receiver(&self, d: usize) -> usize {
+		if d == 0 {
+			self.b
+		} else {
+			self.a
+		}
+	}
+}
+
+fn sock(bufs: Option<u32>) -> std::io::Result<(TcpSocket, Option<(u64, u64)>)> {
+	let s = TcpSocket::new_v4()?;
+	let mut sizes = None;
+	if let Some(b) = bufs {
+		s.set_send_buffer_size(b)?;
+		s.set_recv_buffer_size(b)?;
+		sizes = Some((s.send_buffer_size()? as u64, s.recv_buffer_size()? as u64));
+	}
+	Ok((s, sizes))
+}
+
+async fn open_link(nodes: &[Node], a: usize, b: usize, is_dup: bool, cfg: &LinkCfg, fault: Option<FaultSpec>) -> Result<Link, String> {
+	let e = |what: &str, e: std::io::Error| format!("{}: {:?}", what, e.kind());
+	let any: std::net::SocketAddr = "127.0.0.1:0".parse().unwrap();
+	let (lp, lp_sz) = sock(cfg.bufs[1]).map_err(|x| e("socket", x))?;
+	lp.bind(any).map_err(|x| e("bind", x))?;
+	let lp = lp.listen(4).map_err(|x| e("listen", x))?;
+	let (lb, lb_sz) = sock(cfg.bufs[3]).map_err(|x| e("socket", x))?;
+	lb.bind(any).map_err(|x| e("bind", x))?;
+	let lb = lb.listen(4).map_err(|x| e("listen", x))?;
+	let (sa, sa_sz) = sock(cfg.bufs[0]).map_err(|x| e("socket", x))?;
+	let sa: TcpStream = sa.connect(lp.local_addr().map_err(|x| e("addr", x))?).await.map_err(|x| e("connect", x))?;
+	let (pa, _) = lp.accept().await.map_err(|x| e("accept", x))?;
+	let (sp, sp_sz) = sock(cfg.bufs[2]).map_err(|x| e("socket", x))?;
+	let sp: TcpStream = sp.connect(lb.local_addr().map_err(|x| e("addr", x))?).await.map_err(|x| e("connect", x))?;
+	let (sb, _) = lb.accept().await.map_err(|x| e("accept", x))?;
+	pa.set_nodelay(true).map_err(|x| e("nodelay", x))?;
+	sp.set_nodelay(true).map_err(|x| e("nodelay", x))?;
+	// kernel bounds (reported sizes are what the kernel accounts against)
+	let both = |x: Option<(u64, u64)>, y: Option<(u64, u64)>, xs: bool| match (x, y) {
+		(Some(x), Some(y)) => Some(if xs { x.0 + y.1 } else { x.1 + y.0 }),
+		_ => None,
+	};
+	// dir 0: a -> proxy (sa snd + pa rcv), proxy -> b (sp snd + sb rcv); dir 1 the other way round
+	let kbuf_up = [both(sa_sz, lp_sz, true), both(lb_sz, sp_sz, true)];
+	let kbuf_down = [both(sp_sz, lb_sz, true), both(lp_sz, sa_sz, true)];
+
+	let (tx, rx) = mpsc::unbounded_channel();
+	let ctl = Arc::new(LinkCtl { dirs: [Arc::new(DirCtl::default()), Arc::new(DirCtl::default())], closed: AtomicBool::new(false), first_close: Mutex::new(None), ev: tx });
+	let gen = lock(&nodes[a].sh.st).gen[b];
+	let (pa_r, pa_w) = pa.into_split();
+	let (sp_r, sp_w) = sp.into_split();
+	let mut dcfg = cfg.dirs.clone();
+	if let Some(f) = &fault {
+		dcfg[f.dir].fault = Some((f.off, f.kind.clone()));
+	}
+	let mut handles = Vec::new();
+	handles.push(tokio::spawn(pump_reader(pa_r, ReaderCtx { ctl: ctl.clone(), d: 0, cfg: dcfg[0].clone(), sender: nodes[a].sh.clone(), to: b, gen, hs: HS_INIT, kbuf_up: kbuf_up[0], src_side: a })));
+	handles.push(tokio::spawn(pump_writer(sp_w, ctl.clone(), 0, dcfg[0].clone(), b)));
+	handles.push(tokio::spawn(pump_reader(sp_r, ReaderCtx { ctl: ctl.clone(), d: 1, cfg: dcfg[1].clone(), sender: nodes[b].sh.clone(), to: a, gen, hs: HS_RESP, kbuf_up: kbuf_up[1], src_side: b })));
+	handles.push(tokio::spawn(pump_writer(pa_w, ctl.clone(), 1, dcfg[1].clone(), a)));
+	tokio::spawn(supervise(rx, handles, ctl.clone()));
+
+	let done = [Arc::new(AtomicBool::new(false)), Arc::new(AtomicBool::new(false))];
+	let sb = sb.into_std().map_err(|x| e("into_std", x))?;
+	let sa = sa.into_std().map_err(|x| e("into_std", x))?;
+	let fb = lightning_net_tokio::setup_inbound(nodes[b].pm.clone(), sb);
+	let d1 = done[1].clone();
+	tokio::spawn(async move {
+		fb.await;
+		d1.store(true, SO);
+	});
+	let fa = lightning_net_tokio::setup_outbound(nodes[a].pm.clone(), nodes[b].pk, sa);
+	let d0 = done[0].clone();
+	tokio::spawn(async move {
+		fa.await;
+		d0.store(true, SO);
+	});
+	Ok(Link { a, b, gen, is_dup, ctl, done, fault, kbuf_down, disturbed: None, n5_checked: false })
+}
+
+// ---------------------------------------------------------------------------------------------
+// Case context: verdicts
+// ---------------------------------------------------------------------------------------------
+struct Params {
+	cases: u64,
+	msgs: u64,
+	long_msgs: u64,
+	watchdog: Duration,
+	stall: Duration,
+	probes: u64,
+}
+
+struct Cx<'a> {
+	args: &'a Args,
+	idx: u64,
+	rep: &'a mut Report,
+	desc: Json,
+	violated: bool,
+	undecided: bool,
+}
+impl<'a> Cx<'a> {
+	fn violate(&mut self, rule: &str, sig: &str, detail: String) {
+		self.violated = true;
+		let body = Json::obj()
+			.set("seed", self.args.seed)
+			.set("case", self.idx)
+			.set("rule", rule)
+			.set("rerun", format!("c15_nettokio --prop C15 --tier {} --seed {} --shard 0 --nshards 1 only_run={}", self.args.tier, self.args.seed, self.idx))
+			.set("case_shape", self.desc.clone())
+			.set("detail", detail.as_str());
+		let path = self.args.write_replay(&format!("{}-seed{}-case{}", rule, self.args.seed, self.idx), &body);
+		self.rep.violation("C15", rule, &vcore::canon(sig), detail, Some(path));
+	}
+	fn inconclusive(&mut self, why: &str) {
+		self.undecided = true;
+		self.rep.inconclusive(format!("case {}: {}", self.idx, why));
+	}
+	fn watchdog(&mut self, what: &str) {
+		self.rep.count("watchdog_fired");
+		self.inconclusive(&format!("watchdog fired while {}", what));
+	}
+}
+
+// ---------------------------------------------------------------------------------------------
+// Waiting
+// ---------------------------------------------------------------------------------------------
+#[derive(Debug, PartialEq)]
+enum Wait {
+	Done,
+	LinkDown(usize),
+	Fault(usize),
+	Stall { link: usize, d: usize },
+	Watchdog,
+	Panic,
+}
+
+struct World {
+	nodes: Vec<Node>,
+	links: Vec<Link>,
+	/// messages the feeders will have queued per (sender, receiver, generation) once they are done
+	targets: BTreeMap<(usize, usize, u32), usize>,
+}
+
+fn tick1() -> tokio::time::Sleep {
+	tokio::time::sleep(Duration::from_millis(1))
+}
+
+impl World {
+	fn handshaken(&self, li: usize) -> bool {
+		let l = &self.links[li];
+		lock(&self.nodes[l.a].sh.st).connected[l.b] && lock(&self.nodes[l.b].sh.st).connected[l.a]
+	}
+	/// (queued, released, received) for direction d of link li
+	fn progress(&self, li: usize, d: usize) -> (usize, usize, usize) {
+		let l = &self.links[li];
+		let (s, r) = (l.sender(d), l.receiver(d));
+		let (q, rel) = {
+			let st = lock(&self.nodes[s].sh.st);
+			(st.queued.get(&(r, l.gen)).cloned().unwrap_or(0), st.sent.get(&(r, l.gen)).map(|v| v.len()).unwrap_or(0))
+		};
+		let q = q.max(self.targets.get(&(s, r, l.gen)).cloned().unwrap_or(0));
+		let rc = lock(&self.nodes[r].sh.st).recv.get(&(s, l.gen)).map(|v| v.len()).unwrap_or(0);
+		(q, rel, rc)
+	}
+	fn delivered(&self, li: usize) -> bool {
+		(0..2).all(|d| {
+			let (q, _, r) = self.progress(li, d);
+			r >= q
+		})
+	}
+	/// Wait until every link in `live` is handshaken (`handshake`) / has everything delivered.
+	async fn wait(&self, live: &[usize], handshake: bool, p: &Params) -> Wait {
+		let t0 = Instant::now();
+		let panics0 = panics_seen();
+		let mut last: Vec<[((usize, usize, usize), u64, u64); 2]> = live.iter().map(|_| [((0, 0, 0), 0, 0); 2]).collect();
+		let mut since: Vec<[Instant; 2]> = live.iter().map(|_| [t0; 2]).collect();
+		loop {
+			if panics_seen() > panics0 {
+				return Wait::Panic;
+			}
+			for &li in live {
+				let l = &self.links[li];
+				if l.fault.is_some() && l.fault_applied() {
+					return Wait::Fault(li);
+				}
+				if l.ctl.going_down() {
+					return Wait::LinkDown(li);
+				}
+			}
+			let ok = live.iter().all(|&li| if handshake { self.handshaken(li) } else { self.delivered(li) });
+			if ok {
+				return Wait::Done;
+			}
+			if !handshake {
+				for (k, &li) in live.iter().enumerate() {
+					let l = &self.links[li];
+					let harness_stalling = l.ctl.dirs[0].stall_active.load(SO) || l.ctl.dirs[1].stall_active.load(SO);
+					for d in 0..2 {
+						let key = (self.progress(li, d), l.ctl.dirs[d].read_bytes.load(SO), l.ctl.dirs[d].written_bytes.load(SO));
+						if key != last[k][d] || harness_stalling {
+							last[k][d] = key;
+							since[k][d] = Instant::now();
+						} else if key.0 .2 < key.0 .0 && since[k][d].elapsed() >= p.stall {
+							return Wait::Stall { link: li, d };
+						}
+					}
+				}
+			}
+			if t0.elapsed() >= p.watchdog {
+				return Wait::Watchdog;
+			}
+			tick1().await;
+		}
+	}
+	/// Call process_events on a node until nothing releasable is left (bounded).
+	async fn flush(&self, n: usize) {
+		for _ in 0..400 {
+			self.nodes[n].pm.process_events();
+			if !self.nodes[n].sh.has_releasable() {
+				return;
+			}
+			tick1().await;
+		}
+	}
+	/// Queue one message from s to r and wait until r's handler has it. false: not within `limit`.
+	async fn one_way(&self, li: usize, s: usize, r: usize, len: usize, limit: Duration) -> bool {
+		let gen = self.links[li].gen;
+		self.nodes[s].sh.queue(r, &[len]);
+		let want = lock(&self.nodes[s].sh.st).queued.get(&(r, gen)).cloned().unwrap_or(0);
+		self.flush(s).await;
+		let t0 = Instant::now();
+		loop {
+			let got = lock(&self.nodes[r].sh.st).recv.get(&(s, gen)).map(|v| v.len()).unwrap_or(0);
+			if got >= want {
+				return true;
+			}
+			if self.links[li].ctl.going_down() || t0.elapsed() >= limit {
+				return false;
+			}
+			tick1().await;
+		}
+	}
+	/// Wait until the proxy has closed both sockets and both connection futures have completed.
+	/// A side whose reads are paused (it has a backlog) cannot notice that its socket was closed: a
+	/// failed write wakes nobody. Only the library's ping timeout ends such a connection, so with
+	/// `ticks` the timer of both nodes is advanced once a second while waiting (returns the number
+	/// of such rounds in `.1`).
+	async fn wait_closed(&self, li: usize, limit: Duration, ticks: bool) -> (bool, u32) {
+		let t0 = Instant::now();
+		let mut last_tick = Instant::now();
+		let mut rounds = 0;
+		loop {
+			let l = &self.links[li];
+			if l.ctl.closed.load(SO) && l.done[0].load(SO) && l.done[1].load(SO) {
+				return (true, rounds);
+			}
+			if t0.elapsed() >= limit {
+				return (false, rounds);
+			}
+			if ticks && l.ctl.closed.load(SO) && last_tick.elapsed() >= Duration::from_millis(1000) {
+				for (k, x) in [l.a, l.b].into_iter().enumerate() {
+					if !l.done[k].load(SO) {
+						self.nodes[x].pm.timer_tick_occurred();
+					}
+				}
+				rounds += 1;
+				last_tick = Instant::now();
+			}
+			tick1().await;
+		}
+	}
+	fn kill(&self, li: usize) {
+		let _ = self.links[li].ctl.ev.send(LinkEv::Kill);
+	}
+}
+
+// ---------------------------------------------------------------------------------------------
+// Workload generation
+// ---------------------------------------------------------------------------------------------
+#[derive(Clone, Copy, PartialEq, Debug)]
+enum Kind {
+	Plain,
+	Bulk,
+	Long,
+	Fault,
+	Reconnect,
+	Dup,
+	Three,
+	Ticks,
+}
+
+const SMALL: &[usize] = &[0, 0, 1, 1, 2, 3, 15, 16, 17, 18, 27, 28, 29, 31, 32, 33, 63, 64, 65, 100, 255, 256, 1000];
+/// frame = 36 + len: 4059..4061 put the frame end at the 4096-byte read buffer size -1/0/+1
+const BOUNDARY: &[usize] = &[4059, 4060, 4061, 4095, 4096, 4097, 8156, 16383, 32768, 65531, 65532, 65533, 65533];
+
+fn gen_sizes(rng: &mut Rng, profile: u8, count: usize) -> Vec<usize> {
+	(0..count)
+		.map(|_| match profile {
+			// small
+			0 => *rng.pick(SMALL),
+			// mixed
+			1 => match rng.below(10) {
+				0..=5 => *rng.pick(SMALL),
+				6 | 7 => *rng.pick(BOUNDARY),
+				_ => rng.range(0, MAX_BODY as u64) as usize,
+			},
+			// bulk
+			2 => match rng.below(10) {
+				0 => *rng.pick(SMALL),
+				1..=3 => *rng.pick(BOUNDARY),
+				4..=6 => rng.range(1000, 20000) as usize,
+				_ => rng.range(20000, MAX_BODY as u64) as usize,
+			},
+			// long runs: tiny, the odd medium one
+			_ => match rng.below(60) {
+				0 => 1000,
+				1 => 4060,
+				_ => rng.range(0, 40) as usize,
+			},
+		})
+		.collect()
+}
+fn volume(lens: &[usize]) -> u64 {
+	lens.iter().map(|l| FRAME_OVH + *l as u64).sum()
+}
+
+fn gen_dir_cfg(rng: &mut Rng, vol: u64, n_msgs: usize, stalls_wanted: bool) -> DirCfg {
+	let avg = [8u64, 100, 750, 4096, 32768, 13000];
+	let allowed: Vec<u8> = (0..6u8).filter(|s| vol / avg[*s as usize] <= 12000).collect();
+	let chunk_style = *rng.pick(&allowed);
+	let chunks_est = (vol / avg[chunk_style as usize]).max(1);
+	let budget = rng.range(0, 60);
+	let sleep_per_mille = (budget * 1000 / chunks_est).min(300);
+	let coalesce_per_mille = (rng.range(0, 40) * 1000 / chunks_est).min(300);
+	let mut stalls = Vec::new();
+	if stalls_wanted && vol > 3000 {
+		let avg_frame = vol / n_msgs.max(1) as u64;
+		for _ in 0..rng.range(1, 2) {
+			stalls.push(Stall { at: rng.range(150, (vol / 2).max(200)), backlog_bytes: 16 * avg_frame, cap_ms: rng.range(150, 400), hold_ms: rng.range(0, 15) });
+		}
+		stalls.sort_by_key(|s| s.at);
+	}
+	DirCfg { read_max: *rng.pick(&[1usize, 7, 64, 1000, 4096, 16384, 65536, 65536]), chunk_style, sleep_per_mille, coalesce_per_mille, stalls, fault: None, seed: rng.next() }
+}
+
+fn gen_link_cfg(rng: &mut Rng, vols: [u64; 2], counts: [usize; 2], explicit_bufs: bool, stall_mode: u8) -> LinkCfg {
+	let mut bufs = [None; 4];
+	if explicit_bufs || rng.chance(2, 3) {
+		let class: &[u32] = if explicit_bufs { &[4096, 8192, 16384] } else { &[4096, 8192, 16384, 65536] };
+		for b in bufs.iter_mut() {
+			*b = Some(*rng.pick(class));
+		}
+	}
+	// stall_mode: 0 none, 1 one direction, 2 both, 3 random
+	let (s0, s1) = match stall_mode {
+		0 => (false, false),
+		1 => {
+			let x = rng.chance(1, 2);
+			(x, !x)
+		},
+		2 => (true, true),
+		_ => (rng.chance(1, 2), rng.chance(1, 2)),
+	};
+	LinkCfg { bufs, dirs: [gen_dir_cfg(rng, vols[0], counts[0], s0), gen_dir_cfg(rng, vols[1], counts[1], s1)] }
+}
+
+async fn feeder(sh: Arc<NodeShared>, pm: Arc<PM>, items: Vec<(usize, usize)>, burst_max: u64, pace: u8, seed: u64) {
+	let mut rng = Rng::new(seed);
+	let mut i = 0;
+	while i < items.len() && !sh.stop.load(SO) {
+		let b = (rng.range(1, burst_max) as usize).min(items.len() - i);
+		// group consecutive items for the same destination into one queue call
+		let mut j = i;
+		while j < i + b {
+			let to = items[j].0;
+			let mut lens = Vec::new();
+			while j < i + b && items[j].0 == to {
+				lens.push(items[j].1);
+				j += 1;
+			}
+			sh.queue(to, &lens);
+		}
+		i += b;
+		pm.process_events();
+		match (pace, rng.below(4)) {
+			(0, _) => {},
+			(_, 0) => tokio::task::yield_now().await,
+			(2, 1) => tokio::time::sleep(Duration::from_micros(rng.range(100, 2000))).await,
+			_ => {},
+		}
+	}
+	// a release cap may have left messages behind: keep the events going until all are out
+	// (also covers messages queued before the peer was connected)
+	while !sh.stop.load(SO) && !lock(&sh.st).outq.is_empty() {
+		if sh.has_releasable() {
+			pm.process_events();
+		}
+		tick1().await;
+	}
+}
+
+fn spawn_feeders(w: &mut World, traffic: &[(usize, usize, Vec<usize>)], rng: &mut Rng) -> Vec<JoinHandle<()>> {
+	let mut hs = Vec::new();
+	for t in traffic {
+		let (gen, already) = {
+			let st = lock(&w.nodes[t.0].sh.st);
+			(st.gen[t.1], st.queued.get(&(t.1, st.gen[t.1])).cloned().unwrap_or(0))
+		};
+		w.targets.insert((t.0, t.1, gen), already + t.2.len());
+	}
+	for n in 0..w.nodes.len() {
+		let mut streams: Vec<(usize, VecDeque<usize>)> = traffic.iter().filter(|t| t.0 == n && !t.2.is_empty()).map(|t| (t.1, t.2.iter().cloned().collect())).collect();
+		let mut items = Vec::new();
+		while !streams.is_empty() {
+			let k = rng.below(streams.len() as u64) as usize;
+			let run = rng.range(1, 20);
+			for _ in 0..run {
+				match streams[k].1.pop_front() {
+					Some(l) => items.push((streams[k].0, l)),
+					None => break,
+				}
+			}
+			if streams[k].1.is_empty() {
+				streams.remove(k);
+			}
+		}
+		if items.is_empty() {
+			continue;
+		}
+		let burst_max = *rng.pick(&[1u64, 3, 10, 50, 400, 100000]);
+		hs.push(tokio::spawn(feeder(w.nodes[n].sh.clone(), w.nodes[n].pm.clone(), items, burst_max, rng.below(3) as u8, rng.next())));
+	}
+	hs
+}
+
+async fn stop_feeders(w: &World, hs: Vec<JoinHandle<()>>) {
+	for n in &w.nodes {
+		n.sh.stop.store(true, SO);
+	}
+	for h in hs {
+		let _ = h.await;
+	}
+	for n in &w.nodes {
+		n.sh.stop.store(false, SO);
+	}
+}
+
+// ---------------------------------------------------------------------------------------------
+// Oracle
+// ---------------------------------------------------------------------------------------------
+/// N5 for a link whose connection futures have completed.
+fn check_n5(w: &mut World, cx: &mut Cx, li: usize) {
+	if w.links[li].is_dup || w.links[li].n5_checked {
+		return;
+	}
+	w.links[li].n5_checked = true;
+	let (a, b) = (w.links[li].a, w.links[li].b);
+	let other_live = w.links.iter().enumerate().any(|(k, l)| k != li && !(l.ctl.closed.load(SO) && l.done[0].load(SO) && l.done[1].load(SO)) && ((l.a == a && l.b == b) || (l.a == b && l.b == a)));
+	if other_live {
+		return;
+	}
+	cx.rep.count("disconnects_propagation_checked");
+	for (x, y) in [(a, b), (b, a)] {
+		let listed = w.nodes[x].pm.peer_by_node_id(&w.nodes[y].pk).is_some();
+		let (conn, calls) = {
+			let st = lock(&w.nodes[x].sh.st);
+			(st.connected[y], (st.conn_calls[y], st.disc_calls[y]))
+		};
+		if listed || conn {
+			let role = if x == a { "initiator" } else { "responder" };
+			let why = w.links[li].ctl.first_close().unwrap_or_default();
+			cx.violate(
+				"N5",
+				&format!("connection task of the {} ended but the peer is still {}", role, if listed { "listed by the PeerManager" } else { "connected for the handler" }),
+				format!("link {} (node {} -> node {}, generation {}): the future returned by setup_* on node {} completed (link went down because: {}), yet peer_by_node_id is_some={} and the handler saw peer_connected {} times / peer_disconnected {} times", li, a, b, w.links[li].gen, x, why, listed, calls.0, calls.1),
+			);
+		}
+	}
+}
+
+fn evaluate(w: &World, cx: &mut Cx) {
+	for n in &w.nodes {
+		let st = lock(&n.sh.st);
+		if let Some(e) = st.early.first() {
+			let e = e.clone();
+			cx.violate("N3", "message handed to the handler for a peer that is not connected", format!("{} ({} such deliveries)", e, st.early.len()));
+		}
+		if st.unknown_peer_calls > 0 {
+			cx.violate("N1", "handler called with a node id that belongs to no node of the case", format!("node {}: {} calls", n.sh.me, st.unknown_peer_calls));
+		}
+	}
+	for (li, l) in w.links.iter().enumerate() {
+		if l.is_dup {
+			continue;
+		}
+		let damaged = l.fault_applied();
+		let rule = if damaged { "N2" } else { "N1" };
+		for d in 0..2 {
+			let (s, r) = (l.sender(d), l.receiver(d));
+			let (queued, sent) = {
+				let st = lock(&w.nodes[s].sh.st);
+				(st.queued.get(&(r, l.gen)).cloned().unwrap_or(0), st.sent.get(&(r, l.gen)).cloned().unwrap_or_default())
+			};
+			let recv = lock(&w.nodes[r].sh.st).recv.get(&(s, l.gen)).cloned().unwrap_or_default();
+			let ctx = format!("link {} direction node {} -> node {} generation {} ({} queued, {} released, {} delivered; {})", li, s, r, l.gen, queued, sent.len(), recv.len(), if damaged { "stream damaged by the harness" } else { "stream untouched" });
+			cx.rep.add("messages_delivered_checked", recv.len() as u64);
+			let mut bad = false;
+			for (i, got) in recv.iter().enumerate() {
+				cx.rep.max("max_message_size_seen", got.len as u64);
+				if i >= sent.len() {
+					cx.violate(rule, "more messages delivered than were released", format!("{}: delivery #{} is type {} len {} [{}]", ctx, i, got.ty, got.len, got.note));
+					bad = true;
+					break;
+				}
+				if !got.same(&sent[i]) {
+					let what = if sent[..i].iter().any(|x| x.same(got)) {
+						"an earlier message was delivered again"
+					} else if sent[i + 1..].iter().any(|x| x.same(got)) {
+						"a later message was delivered in place of the next one"
+					} else if got.ty == sent[i].ty && got.len == sent[i].len {
+						"a message was delivered with altered content"
+					} else {
+						"a message was delivered that was never released"
+					};
+					cx.violate(rule, what, format!("{}: delivery #{} is type {} len {} hash {:016x} [{}], the sender released type {} len {} hash {:016x} [{}] at that position", ctx, i, got.ty, got.len, got.hash, got.note, sent[i].ty, sent[i].len, sent[i].hash, sent[i].note));
+					bad = true;
+					break;
+				}
+			}
+			if bad {
+				continue;
+			}
+			if let Some(f) = &l.fault {
+				if damaged && f.dir == d {
+					cx.rep.count("fault_position_bounds_checked");
+					let mut lo = if d == 0 { HS_INIT } else { HS_RESP };
+					for (k, m) in sent.iter().enumerate().take(recv.len()) {
+						let end = lo + FRAME_OVH + m.len as u64;
+						if end > f.off {
+							cx.violate("N2", &format!("a message whose frame overlaps or follows the damaged offset was delivered ({})", f.kind.name()), format!("{}: fault {:?} at stream offset {}; message #{} ({} bytes) cannot end before offset {}, yet it was delivered", ctx, f.kind, f.off, k, m.len, end));
+							break;
+						}
+						lo = end;
+					}
+				}
+			}
+			if !damaged && l.disturbed.is_none() && !cx.undecided && recv.len() < queued {
+				let why = l.ctl.first_close();
+				let sig = match &why {
+					Some(w) if w.contains("closed its socket") => "the library closed an undisturbed connection, messages lost",
+					Some(_) => "undisturbed connection went down, messages lost",
+					None => "messages missing on an undisturbed live connection",
+				};
+				cx.violate("N1", sig, format!("{}: first missing message is #{}; link state: {}", ctx, recv.len(), why.unwrap_or_else(|| "up".to_string())));
+			}
+		}
+	}
+}
+
+/// The connection of `li` was damaged (or is going down after damage): drive it to its end.
+async fn fault_flow(w: &mut World, cx: &mut Cx<'_>, li: usize, p: &Params, rescue_ticks: bool) {
+	cx.rep.count("faults_injected");
+	let f = w.links[li].fault.clone().unwrap();
+	cx.rep.count(&format!("faults_{}", f.kind.name()));
+	let d = f.dir;
+	let (s, r) = (w.links[li].sender(d), w.links[li].receiver(d));
+	let ctl = w.links[li].ctl.clone();
+	let kb = w.links[li].kbuf_down[d];
+	let x_limit = kb.map(|kb| 65535 + 34 + 2 * 4096 + 2 * kb + 2 * SKB_SLACK);
+	let t0 = Instant::now();
+	let mut fillers = false;
+	let mut last_moved = (0u64, Instant::now());
+	let mut ticks = 0;
+	loop {
+		if ctl.closed.load(SO) {
+			break;
+		}
+		let past = ctl.dirs[d].written_bytes.load(SO).saturating_sub(ctl.dirs[d].fault_out_pos.load(SO));
+		if let Some(x) = x_limit {
+			if past >= x && f.kind != FaultKind::Trunc {
+				cx.violate("N2", &format!("receiver kept reading past the damaged offset ({})", f.kind.name()), format!("link {} direction node {} -> node {}: fault {:?} at offset {}; the proxy has since written {} more bytes into the receiver's socket, the kernel can hold at most {} of them, so the receiver consumed the damaged frame completely and went on reading", li, s, r, f.kind, f.off, past, kb.unwrap() + SKB_SLACK));
+				break;
+			}
+		}
+		if !fillers && t0.elapsed() >= Duration::from_millis(150) && lock(&w.nodes[s].sh.st).connected[r] {
+			fillers = true;
+			let n = (x_limit.unwrap_or(300_000) / 32000 + 3) as usize;
+			w.nodes[s].sh.queue(r, &vec![32000; n]);
+			cx.rep.count("fault_fillers_queued");
+		}
+		if fillers {
+			w.nodes[s].pm.process_events();
+		}
+		let moved: u64 = (0..2).map(|k| ctl.dirs[k].read_bytes.load(SO) + ctl.dirs[k].written_bytes.load(SO)).sum();
+		if moved != last_moved.0 {
+			last_moved = (moved, Instant::now());
+		} else if rescue_ticks && last_moved.1.elapsed() >= Duration::from_millis(1500) {
+			// nothing can complete the damaged frame any more (e.g. a byte dropped from a handshake
+			// act): let the handshake / ping timeouts of the library end it
+			for n in &w.nodes {
+				n.pm.timer_tick_occurred();
+			}
+			ticks += 1;
+			last_moved.1 = Instant::now();
+		}
+		if t0.elapsed() >= p.watchdog {
+			cx.watchdog("waiting for a damaged connection to go down");
+			break;
+		}
+		tick1().await;
+	}
+	if ticks > 0 {
+		cx.rep.count("fault_cases_ended_by_timer_ticks");
+	} else if ctl.closed.load(SO) {
+		cx.rep.count("connections_dropped_after_fault");
+	}
+	w.links[li].disturbed = Some("fault".to_string());
+	w.kill(li);
+	if rescue_ticks {
+		close_and_check(w, cx, li, p, "waiting for the connection tasks of a damaged connection to end").await;
+	}
+}
+
+/// The sockets of `li` are (being) closed: wait for the connection tasks, then N5. false: watchdog.
+async fn close_and_check(w: &mut World, cx: &mut Cx<'_>, li: usize, p: &Params, what: &str) -> bool {
+	let (ok, rounds) = w.wait_closed(li, p.watchdog, true).await;
+	if rounds > 0 {
+		cx.rep.count("closed_socket_noticed_only_after_timer_ticks");
+	}
+	if ok {
+		check_n5(w, cx, li);
+	} else {
+		cx.watchdog(what);
+	}
+	ok
+}
+
+/// N6: direction d of link li made no progress for `stall` although nothing withholds it.
+async fn stall_flow(w: &World, cx: &mut Cx<'_>, li: usize, d: usize, p: &Params) -> bool {
+	let l = &w.links[li];
+	let (s, r) = (l.sender(d), l.receiver(d));
+	let key = || (w.progress(li, d), l.ctl.dirs[d].read_bytes.load(SO), l.ctl.dirs[d].written_bytes.load(SO));
+	let before = key();
+	if std::env::var("VERIF_C15N_DEBUG").is_ok() {
+		for k in 0..2 {
+			let c = &l.ctl.dirs[k];
+			eprintln!("stall on link {} dir {}: dir {} progress {:?} read {} out {} written {} queue {} stall_active {} stalls {} releasable s={} r={}", li, d, k, w.progress(li, k), c.read_bytes.load(SO), c.out_bytes.load(SO), c.written_bytes.load(SO), lock(&c.queue).len, c.stall_active.load(SO), c.stalls_started.load(SO), w.nodes[s].sh.has_releasable(), w.nodes[r].sh.has_releasable());
+		}
+	}
+	let mut ok = 0;
+	for _ in 0..p.probes {
+		if !w.one_way(li, r, s, 40, Duration::from_secs(5)).await {
+			break;
+		}
+		ok += 1;
+	}
+	let after = key();
+	if ok == p.probes && before == after && !l.ctl.going_down() && !l.ctl.dirs[d].stall_active.load(SO) {
+		let q = lock(&l.ctl.dirs[d].queue).len;
+		cx.violate(
+			"N6",
+			if q > 0 || after.1 > after.2 { "delivery stalled: the receiver stopped reading although it has no backlog" } else { "delivery stalled: released messages never reach the wire or are never processed" },
+			format!("link {} direction node {} -> node {}: (queued, released, delivered) = {:?}, proxy read {} bytes from the sender and wrote {} to the receiver ({} waiting in the proxy); no change for {} ms and during {} sequential probe messages delivered in the opposite direction; the harness imposes no stall", li, s, r, after.0, after.1, after.2, q, p.stall.as_millis(), ok),
+		);
+		return true;
+	}
+	false
+}
+
+// ---------------------------------------------------------------------------------------------
+// Case flows
+// ---------------------------------------------------------------------------------------------
+#[derive(Debug, PartialEq)]
+enum Flow {
+	Ok,
+	Faulted(usize),
+	Stop,
+}
+
+/// Wait for handshake / delivery on `live`, dealing with faults, stalls and watchdogs.
+async fn wait_h(w: &mut World, cx: &mut Cx<'_>, live: &mut Vec<usize>, handshake: bool, p: &Params, rescue: bool, what: &str) -> Flow {
+	loop {
+		match w.wait(live, handshake, p).await {
+			Wait::Done => return Flow::Ok,
+			Wait::Panic => return Flow::Stop,
+			Wait::Watchdog => {
+				cx.watchdog(what);
+				return Flow::Stop;
+			},
+			Wait::Stall { link, d } => {
+				cx.rep.count("stall_probes_run");
+				if stall_flow(w, cx, link, d, p).await {
+					w.links[link].disturbed = Some("stall reported".to_string());
+					return Flow::Stop;
+				}
+			},
+			Wait::Fault(li) | Wait::LinkDown(li) => {
+				if w.links[li].fault.is_some() && w.links[li].fault_applied() {
+					fault_flow(w, cx, li, p, rescue).await;
+					live.retain(|x| *x != li);
+					return Flow::Faulted(li);
+				}
+				let l = &w.links[li];
+				if handshake && !w.handshaken(li) {
+					let why = l.ctl.first_close().unwrap_or_default();
+					cx.violate("N1", "fault-free handshake did not complete, connection went down", format!("link {} (node {} -> node {}, generation {}): {}", li, l.a, l.b, l.gen, why));
+					w.links[li].disturbed = Some("handshake failure reported".to_string());
+				}
+				return Flow::Stop;
+			},
+		}
+	}
+}
+
+async fn traffic_phase(w: &mut World, cx: &mut Cx<'_>, p: &Params, rng: &mut Rng, live: &mut Vec<usize>, traffic: &[(usize, usize, Vec<usize>)], rescue: bool) -> Flow {
+	let hs = spawn_feeders(w, traffic, rng);
+	let mut flow = wait_h(w, cx, live, false, p, rescue, "waiting for delivery").await;
+	// a fault on one link of a three-node case: the other links must still deliver everything
+	if let Flow::Faulted(_) = flow {
+		if !live.is_empty() {
+			if let Flow::Stop = wait_h(w, cx, live, false, p, rescue, "waiting for delivery on the other links").await {
+				flow = Flow::Stop;
+			}
+		}
+	}
+	stop_feeders(w, hs).await;
+	flow
+}
+
+fn bump_gen(w: &World, a: usize, b: usize) {
+	for (x, y) in [(a, b), (b, a)] {
+		let mut st = lock(&w.nodes[x].sh.st);
+		st.gen[y] += 1;
+		st.outq.retain(|(to, _, _)| *to != y);
+	}
+}
+
+fn gen_traffic(rng: &mut Rng, links: &[(usize, usize)], kind: Kind, p: &Params, phase2: bool) -> Vec<(usize, usize, Vec<usize>)> {
+	let mut t = Vec::new();
+	let heavy_dir = rng.below(2);
+	for &(a, b) in links {
+		for d in 0..2u64 {
+			let (s, r) = if d == 0 { (a, b) } else { (b, a) };
+			let m = p.msgs.max(4);
+			let lens = if phase2 {
+				let prof = rng.below(2) as u8;
+				{
+					let c = rng.range(1, (m / 2).max(2)) as usize;
+					gen_sizes(rng, prof, c)
+				}
+			} else {
+				match kind {
+					Kind::Plain => {
+						let n = if rng.chance(1, 8) { 0 } else { rng.range(1, m) };
+						let prof = rng.below(2) as u8;
+						gen_sizes(rng, prof, n as usize)
+					},
+					Kind::Bulk => {
+						if d == heavy_dir || rng.chance(1, 3) {
+							{
+							let c = rng.range(20, (m * 2 / 3).max(20)) as usize;
+							gen_sizes(rng, 2, c)
+						}
+						} else {
+							{
+							let c = rng.range(1, 20) as usize;
+							gen_sizes(rng, 1, c)
+						}
+						}
+					},
+					Kind::Long => {
+						let c = (p.long_msgs + rng.range(0, 200)) as usize;
+						gen_sizes(rng, 3, c)
+					},
+					Kind::Fault => {
+						let prof = 1 + rng.below(2) as u8;
+						let c = rng.range(10, m.max(10)) as usize;
+						let mut v = gen_sizes(rng, prof, c);
+						while volume(&v) < 3000 {
+							v.push(1000);
+						}
+						v
+					},
+					_ => {
+						let prof = rng.below(2) as u8;
+						{
+					let c = rng.range(1, (m / 2).max(2)) as usize;
+					gen_sizes(rng, prof, c)
+				}
+					},
+				}
+			};
+			t.push((s, r, lens));
+		}
+	}
+	t
+}
+
+fn link_cfg_for(rng: &mut Rng, traffic: &[(usize, usize, Vec<usize>)], a: usize, b: usize, explicit: bool, stall_mode: u8) -> LinkCfg {
+	let find = |s: usize, r: usize| traffic.iter().find(|t| t.0 == s && t.1 == r).map(|t| (volume(&t.2), t.2.len())).unwrap_or((0, 0));
+	let (f, g) = (find(a, b), find(b, a));
+	gen_link_cfg(rng, [f.0 + 400, g.0 + 400], [f.1, g.1], explicit, stall_mode)
+}
+
+async fn teardown(w: &mut World, cx: &mut Cx<'_>, p: &Params) {
+	for li in 0..w.links.len() {
+		if !w.links[li].ctl.closed.load(SO) {
+			w.kill(li);
+		}
+	}
+	for li in 0..w.links.len() {
+		close_and_check(w, cx, li, p, "waiting for connection tasks to end after the sockets were closed").await;
+	}
+}
+
+fn harvest(w: &World, cx: &mut Cx) {
+	for l in &w.links {
+		for d in 0..2 {
+			let c = &l.ctl.dirs[d];
+			cx.rep.add("bytes_forwarded", c.written_bytes.load(SO));
+			cx.rep.add("chunks_forwarded", c.chunks.load(SO));
+			cx.rep.add("stalls_injected", c.stalls_started.load(SO));
+			cx.rep.add("stalls_released_by_cap", c.stalls_capped.load(SO));
+			cx.rep.add("backpressure_pauses_observed", c.stalls_backpressure.load(SO));
+		}
+		cx.rep.count("connections_opened");
+	}
+}
+
+async fn run_case(cx: &mut Cx<'_>, p: &Params, rng: &mut Rng, kind: Kind) {
+	let n = match kind {
+		Kind::Three => 3,
+		Kind::Ticks if rng.chance(1, 3) => 3,
+		_ => 2,
+	};
+	let mut pairs: Vec<(usize, usize)> = vec![if rng.chance(1, 2) { (0, 1) } else { (1, 0) }];
+	if n == 3 {
+		pairs.push(if rng.chance(1, 2) { (2, 0) } else { (0, 2) });
+		if rng.chance(1, 2) {
+			pairs.push(if rng.chance(1, 2) { (1, 2) } else { (2, 1) });
+		}
+	}
+	let traffic = gen_traffic(rng, &pairs, kind, p, false);
+	let with_fault = kind == Kind::Fault || (kind == Kind::Three && rng.chance(1, 2));
+	let fault = if with_fault {
+		let dir = rng.below(2) as usize;
+		let (s, r) = if dir == 0 { pairs[0] } else { (pairs[0].1, pairs[0].0) };
+		let vol = traffic.iter().find(|t| t.0 == s && t.1 == r).map(|t| volume(&t.2)).unwrap_or(0);
+		let hs = if dir == 0 { HS_INIT } else { HS_RESP };
+		let off = if n == 2 && rng.chance(1, 8) { rng.range(0, hs + 60) } else { rng.range(300, (hs + 50 + vol).max(400)) };
+		let kind = match rng.below(4) {
+			0 => FaultKind::Flip(if rng.chance(1, 2) { 1 << rng.below(8) } else { rng.range(1, 255) as u8 }),
+			1 => FaultKind::Trunc,
+			2 => FaultKind::Dup(*rng.pick(&[1usize, 2, 16, 18, 34, 64, 128])),
+			_ => FaultKind::Drop(*rng.pick(&[1usize, 1, 2, 16, 18, 50, 64])),
+		};
+		Some(FaultSpec { dir, off: off.max(if matches!(kind, FaultKind::Dup(_)) { 1 } else { 0 }), kind })
+	} else {
+		None
+	};
+	let stall_mode = match kind {
+		Kind::Bulk => 1 + rng.below(2) as u8,
+		Kind::Long => rng.below(4) as u8,
+		Kind::Plain | Kind::Fault => 3,
+		_ => {
+			if rng.chance(1, 3) {
+				3
+			} else {
+				0
+			}
+		},
+	};
+	let nodes = make_nodes(n, rng);
+	let caps: &[usize] = if kind == Kind::Long { &[usize::MAX, 64, 16] } else { &[usize::MAX, usize::MAX, 64, 16, 5, 1] };
+	let mut cap_desc = Vec::new();
+	for nd in &nodes {
+		let c = *rng.pick(caps);
+		lock(&nd.sh.st).release_cap = c;
+		cap_desc.push(if c == usize::MAX { 0u64 } else { c as u64 });
+	}
+	let mut w = World { nodes, links: Vec::new(), targets: BTreeMap::new() };
+	let mut shape = Fnv::new();
+	shape.str(&format!("{:?}", kind)).u64(n as u64).u64(pairs.len() as u64);
+	for c in &cap_desc {
+		shape.u64(*c);
+	}
+	let mut link_desc = Vec::new();
+	let mut live: Vec<usize> = Vec::new();
+	for (k, &(a, b)) in pairs.iter().enumerate() {
+		let f = if k == 0 { fault.clone() } else { None };
+		let cfg = link_cfg_for(rng, &traffic, a, b, f.is_some() || kind == Kind::Bulk, stall_mode);
+		shape.u64(cfg.dirs[0].chunk_style as u64).u64(cfg.dirs[1].chunk_style as u64).u64(cfg.dirs[0].stalls.len() as u64).u64(cfg.dirs[1].stalls.len() as u64).u64(cfg.bufs[0].unwrap_or(0) as u64).u64((cfg.dirs[0].read_max as u64).min(5000));
+		if let Some(f) = &f {
+			shape.str(f.kind.name()).u64(f.dir as u64).u64((f.off / 64).min(40));
+		}
+		link_desc.push(Json::obj().set("initiator", a).set("responder", b).set("bufs", format!("{:?}", cfg.bufs)).set("dir0", format!("{:?}", cfg.dirs[0])).set("dir1", format!("{:?}", cfg.dirs[1])).set("fault", f.as_ref().map(|f| format!("{:?}", f))));
+		match open_link(&w.nodes, a, b, false, &cfg, f).await {
+			Ok(l) => {
+				w.links.push(l);
+				live.push(w.links.len() - 1);
+			},
+			Err(e) => {
+				cx.inconclusive(&format!("harness could not set up a loopback connection: {}", e));
+				return;
+			},
+		}
+	}
+	for t in &traffic {
+		shape.u64((t.2.len() as u64).min(64) / 8).u64(volume(&t.2) / 50_000);
+	}
+	cx.desc = Json::obj().set("kind", format!("{:?}", kind)).set("nodes", n).set("release_caps", cap_desc.clone()).set("links", Json::Arr(link_desc)).set("traffic", Json::Arr(traffic.iter().map(|t| Json::obj().set("from", t.0).set("to", t.1).set("messages", t.2.len()).set("bytes", volume(&t.2))).collect()));
+	let rescue = n == 2;
+
+	let flow = run_flows(&mut w, cx, p, rng, kind, &pairs, &traffic, &mut live, rescue, &mut shape).await;
+	let _ = flow;
+	teardown(&mut w, cx, p).await;
+	evaluate(&w, cx);
+	harvest(&w, cx);
+	cx.rep.distinct(shape.get());
+	if cx.rep.samples.len() < cx.rep.max_samples && !cx.violated {
+		let s = cx.desc.clone().set("case", cx.idx);
+		cx.rep.sample(s);
+	}
+}
+
+#[allow(clippy::too_many_arguments)]
+async fn run_flows(w: &mut World, cx: &mut Cx<'_>, p: &Params, rng: &mut Rng, kind: Kind, pairs: &[(usize, usize)], traffic: &[(usize, usize, Vec<usize>)], live: &mut Vec<usize>, rescue: bool, shape: &mut Fnv) -> Flow {
+	// ---- handshake (messages may already be queued: they must wait for peer_connected)
+	let early_queue = rng.chance(1, 3);
+	shape.u64(early_queue as u64);
+	let mut feeders = None;
+	if early_queue && kind != Kind::Reconnect && kind != Kind::Dup {
+		feeders = Some(spawn_feeders(w, traffic, rng));
+	}
+	match wait_h(w, cx, live, true, p, rescue, "waiting for the handshake").await {
+		Flow::Ok => {},
+		Flow::Faulted(li) => {
+			if let Some(hs) = feeders.take() {
+				stop_feeders(w, hs).await;
+			}
+			return after_fault(w, cx, p, rng, li, live, rescue, shape).await;
+		},
+		Flow::Stop => {
+			if let Some(hs) = feeders.take() {
+				stop_feeders(w, hs).await;
+			}
+			return Flow::Stop;
+		},
+	}
+	cx.rep.add("handshakes_completed", live.len() as u64);
+
+	// ---- first traffic phase
+	let flow = match kind {
+		Kind::Dup => {
+			let hs = spawn_feeders(w, traffic, rng);
+			if rng.chance(1, 2) {
+				tokio::time::sleep(Duration::from_millis(rng.range(0, 5))).await;
+			}
+			let (a, b) = if rng.chance(1, 2) { pairs[0] } else { (pairs[0].1, pairs[0].0) };
+			let cfg = gen_link_cfg(rng, [400, 400], [1, 1], false, 0);
+			let dup = match open_link(&w.nodes, a, b, true, &cfg, None).await {
+				Ok(l) => {
+					w.links.push(l);
+					w.links.len() - 1
+				},
+				Err(e) => {
+					stop_feeders(w, hs).await;
+					cx.inconclusive(&format!("harness could not set up a second loopback connection: {}", e));
+					return Flow::Stop;
+				},
+			};
+			cx.rep.count("duplicate_connections_attempted");
+			let f = wait_h(w, cx, live, false, p, rescue, "waiting for delivery while a second connection is attempted").await;
+			stop_feeders(w, hs).await;
+			if f == Flow::Ok {
+				if w.wait_closed(dup, p.watchdog, false).await.0 {
+					if w.links[dup].ctl.first_close().map(|s| s.contains("closed its socket")).unwrap_or(false) {
+						cx.rep.count("duplicate_connections_closed_by_library");
+					}
+				} else {
+					cx.watchdog("waiting for the second connection between connected nodes to be closed");
+					return Flow::Stop;
+				}
+			}
+			f
+		},
+		Kind::Reconnect if rng.chance(1, 2) => {
+			// abrupt: close in the middle of the traffic
+			shape.str("abrupt");
+			let hs = spawn_feeders(w, traffic, rng);
+			let li = live[0];
+			let goal = rng.range(200, 4000);
+			let t0 = Instant::now();
+			while w.links[li].ctl.dirs[0].read_bytes.load(SO) + w.links[li].ctl.dirs[1].read_bytes.load(SO) < goal && t0.elapsed() < Duration::from_millis(300) && !w.links[li].ctl.going_down() {
+				tick1().await;
+			}
+			w.links[li].disturbed = Some("closed by the harness in the middle of the traffic".to_string());
+			stop_feeders(w, hs).await;
+			Flow::Ok
+		},
+		_ => match feeders.take() {
+			Some(hs) => {
+				let mut flow = wait_h(w, cx, live, false, p, rescue, "waiting for delivery").await;
+				if let Flow::Faulted(_) = flow {
+					if !live.is_empty() {
+						if let Flow::Stop = wait_h(w, cx, live, false, p, rescue, "waiting for delivery on the other links").await {
+							flow = Flow::Stop;
+						}
+					}
+				}
+				stop_feeders(w, hs).await;
+				flow
+			},
+			None => traffic_phase(w, cx, p, rng, live, traffic, rescue).await,
+		},
+	};
+	match flow {
+		Flow::Ok => {},
+		Flow::Faulted(li) => return after_fault(w, cx, p, rng, li, live, rescue, shape).await,
+		Flow::Stop => return Flow::Stop,
+	}
+	match kind {
+		Kind::Long => cx.rep.count("cases_long_two_rotations"),
+		Kind::Ticks => {
+			let rounds = rng.range(5, 9);
+			for _ in 0..rounds {
+				let x = rng.below(w.nodes.len() as u64) as usize;
+				w.nodes[x].pm.timer_tick_occurred();
+				cx.rep.count("timer_ticks_at_quiescent_points");
+				for &li in live.iter() {
+					let l = &w.links[li];
+					let y = if l.a == x {
+						l.b
+					} else if l.b == x {
+						l.a
+					} else {
+						continue;
+					};
+					for (s, r) in [(x, y), (y, x)] {
+						let len = *rng.pick(SMALL);
+						if !w.one_way(li, s, r, len, p.watchdog).await {
+							if w.links[li].ctl.going_down() {
+								let why = w.links[li].ctl.first_close().unwrap_or_default();
+								cx.violate("P1", "a timer tick at a quiescent point, followed by a round trip, dropped a healthy link", format!("link {}: tick on node {}, then one message each way; link state: {}", li, x, why));
+								w.links[li].disturbed = Some("P1 reported".to_string());
+							} else {
+								cx.watchdog("waiting for a round trip after a timer tick");
+							}
+							return Flow::Stop;
+						}
+					}
+				}
+			}
+		},
+		Kind::Reconnect => {
+			let li = live[0];
+			let (a, b) = (w.links[li].a, w.links[li].b);
+			let method = rng.below(4);
+			shape.u64(method);
+			match method {
+				0 => w.kill(li),
+				1 => w.nodes[a].pm.disconnect_by_node_id(w.nodes[b].pk),
+				2 => w.nodes[b].pm.disconnect_by_node_id(w.nodes[a].pk),
+				_ => w.nodes[rng.below(2) as usize].pm.disconnect_all_peers(),
+			}
+			cx.rep.count(&format!("disconnect_method_{}", method));
+			if !close_and_check(w, cx, li, p, "waiting for a closed connection to be torn down").await {
+				return Flow::Stop;
+			}
+			live.clear();
+			return reconnect(w, cx, p, rng, a, b, live, rescue).await;
+		},
+		_ => {},
+	}
+	// ---- second traffic phase on the same connections
+	if matches!(kind, Kind::Ticks | Kind::Dup) || (kind != Kind::Long && rng.chance(1, 4)) {
+		shape.str("phase2");
+		let t2 = gen_traffic(rng, pairs, kind, p, true);
+		match traffic_phase(w, cx, p, rng, live, &t2, rescue).await {
+			Flow::Faulted(li) => return after_fault(w, cx, p, rng, li, live, rescue, shape).await,
+			x => return x,
+		}
+	}
+	Flow::Ok
+}
+
+#[allow(clippy::too_many_arguments)]
+async fn after_fault(w: &mut World, cx: &mut Cx<'_>, p: &Params, rng: &mut Rng, li: usize, live: &mut Vec<usize>, rescue: bool, shape: &mut Fnv) -> Flow {
+	if cx.undecided || w.nodes.len() != 2 || rng.chance(1, 2) {
+		return Flow::Ok;
+	}
+	shape.str("reconnect_after_fault");
+	let (a, b) = (w.links[li].a, w.links[li].b);
+	reconnect(w, cx, p, rng, a, b, live, rescue).await
+}
+
+/// N4: the old connection between a and b is gone; connect again (either side dials) and run fresh traffic.
+#[allow(clippy::too_many_arguments)]
+async fn reconnect(w: &mut World, cx: &mut Cx<'_>, p: &Params, rng: &mut Rng, a: usize, b: usize, live: &mut Vec<usize>, rescue: bool) -> Flow {
+	bump_gen(w, a, b);
+	let (a, b) = if rng.chance(1, 2) { (a, b) } else { (b, a) };
+	let t2 = gen_traffic(rng, &[(a, b)], Kind::Plain, p, true);
+	let cfg = link_cfg_for(rng, &t2, a, b, false, 3);
+	match open_link(&w.nodes, a, b, false, &cfg, None).await {
+		Ok(l) => {
+			w.links.push(l);
+			live.push(w.links.len() - 1);
+		},
+		Err(e) => {
+			cx.inconclusive(&format!("harness could not set up a loopback connection: {}", e));
+			return Flow::Stop;
+		},
+	}
+	match wait_h(w, cx, live, true, p, rescue, "waiting for the handshake of a reconnection").await {
+		Flow::Ok => {},
+		_ => return Flow::Stop,
+	}
+	cx.rep.count("reconnects");
+	traffic_phase(w, cx, p, rng, live, &t2, rescue).await
+}
+
+// ---------------------------------------------------------------------------------------------
+// Main
+// ---------------------------------------------------------------------------------------------
+fn run_one(args: &Args, p: &Params, idx: u64, rng: &mut Rng, rep: &mut Report) {
+	let _ = take_panics();
+	let kind = match rng.weighted(&[22, 14, 8, 26, 10, 6, 8, 6]) {
+		0 => Kind::Plain,
+		1 => Kind::Bulk,
+		2 => Kind::Long,
+		3 => Kind::Fault,
+		4 => Kind::Reconnect,
+		5 => Kind::Dup,
+		6 => Kind::Three,
+		_ => Kind::Ticks,
+	};
+	let workers = 2 + rng.below(3) as usize;
+	let rt = match tokio::runtime::Builder::new_multi_thread().worker_threads(workers).enable_all().build() {
+		Ok(rt) => rt,
+		Err(e) => {
+			rep.inconclusive(format!("case {}: cannot build a tokio runtime: {}", idx, e));
+			return;
+		},
+	};
+	let t0 = Instant::now();
+	let mut cx = Cx { args, idx, rep, desc: Json::obj().set("kind", format!("{:?}", kind)), violated: false, undecided: false };
+	let r = std::panic::catch_unwind(std::panic::AssertUnwindSafe(|| rt.block_on(run_case(&mut cx, p, rng, kind))));
+	rt.shutdown_background();
+	let panics = take_panics();
+	let (harness, library): (Vec<String>, Vec<String>) = panics.into_iter().partition(|m| m.contains("c15_nettokio.rs"));
+	if let Some(first) = library.first() {
+		let detail = format!("{} panic(s) in runtime or caller threads; first: {}; all: {:?}", library.len(), first, library.iter().take(6).collect::<Vec<_>>());
+		cx.violate("N3", &format!("panic: {}", first), detail);
+	} else if !harness.is_empty() || r.is_err() {
+		cx.inconclusive(&format!("harness panic: {:?}", harness.first()));
+	}
+	let (violated, undecided) = (cx.violated, cx.undecided);
+	rep.count(&format!("cases_{}", format!("{:?}", kind).to_lowercase()));
+	rep.count(&format!("workers_{}", workers));
+	if !violated && !undecided {
+		rep.count("cases_decided_clean");
+	}
+	rep.max("max_case_wall_ms", t0.elapsed().as_millis() as u64);
+	if args.flag("timing") {
+		eprintln!("case {} {:?} workers {} took {} ms{}{}", idx, kind, workers, t0.elapsed().as_millis(), if violated { " VIOLATED" } else { "" }, if undecided { " UNDECIDED" } else { "" });
+	}
+}
+
+fn main() {
+	install_hook();
+	let args = Args::parse();
+	let mut rep = args.report();
+	let p = Params {
+		cases: args.num("cases", 320, 16000),
+		msgs: args.num("msgs", 60, 60),
+		long_msgs: args.num("long_msgs", 2100, 2100),
+		watchdog: Duration::from_millis(args.num("watchdog_ms", 60_000, 60_000)),
+		stall: Duration::from_millis(args.num("stall_ms", 20_000, 20_000)),
+		probes: args.num("probes", 20, 20),
+	};
+	store::shard_runs(&args, p.cases, &mut rep, |idx, rng, rep| run_one(&args, &p, idx, rng, rep));
+	rep.write_to(&args.out);
+}
